@@ -90,7 +90,38 @@ def parseInts (s : String) : Option (List Int) :=
 
 def fieldsOfSpec (fs : List (Bytes × Bytes)) : Header := fs.map (fun f => (f.1, [f.2]))
 
-def handle : List String → String
+/-- the delivery plan of a `ws` op (see harness/cmd/c14/ws.go): `<client>.<seg>.<end>.<buf>.<body>`;
+    result: the buffer length of the reader and, per data message, the lengths of the pieces its
+    reader hands out (r: the frames as written; g<n>: frames of n bytes, the client's write buffer) -/
+def parseWsPlan (plan : String) : Option (Nat × List (List Nat)) :=
+  match plan.splitOn "." with
+  | [client, _seg, _end, buf, body] =>
+    let cap := if buf = "s" then 131072 else if buf = "m" then 8192 else 65536
+    let wbuf : Option (Option Nat) :=
+      if client = "r" then some none
+      else if client.startsWith "g" then (client.drop 1).toNat?.map (fun n => some (max n 1))
+      else none
+    match wbuf with
+    | none => none
+    | some wb =>
+      let msgs := if body = "-" || body = "" then [] else body.splitOn "_"
+      let parsed : Option (List (Option (List Nat))) := msgs.mapM (fun m =>
+        let m : String := if m.startsWith "t" then (m.drop 1).copy else m
+        let parts := (m.splitOn "+").filter (fun p => p != "p" && p != "q")
+        if parts.isEmpty then some none      -- control frames only: no data message
+        else
+          match parts.mapM (·.toNat?) with
+          | none => none
+          | some ls =>
+            match wb with
+            | none => some (some ls)
+            | some n =>
+              let total := ls.sum
+              some (some (List.replicate (total / n) n ++ (if total % n = 0 then [] else [total % n]))))
+      parsed.map (fun l => (cap, l.filterMap id))
+  | _ => none
+
+def handleBase : List String → String
   /- the receive loop over a whole stream -/
   | ["recv", _meta, chans, table, stream] =>
     match parseInts chans, parseUrlTable table, hexToBytes stream with
@@ -169,5 +200,20 @@ def handle : List String → String
   | ["limits"] =>
     s!"line={genCfg.maxLine} body={genCfg.maxBody} bodyerr={boolStr genCfg.bodyErrReturned} unknownpkt={boolStr genCfg.unknownChanPacket} badhdrpkt={boolStr genCfg.badHeaderPacket} rtprecover={boolStr genCfg.rtpRecover}"
   | _ => "bad-op"
+
+/-- `ws <plan> <read / recv op>`: the stream of the op travels through the WebSocket transport as
+    the plan says (model: `WsTransport.deliver` with the fact of the current tree); what arrives is
+    read by the op's reader -/
+def handle : List String → String
+  | "ws" :: plan :: rest =>
+    match parseWsPlan plan, rest.getLast? with
+    | some (cap, pl), some hex =>
+      match hexToBytes hex with
+      | some s =>
+        let s' := IpcHub.WsTransport.deliver genWsCfg cap (IpcHub.WsTransport.cutMsgs pl s)
+        handleBase (rest.dropLast ++ [bytesToHex s'])
+      | none => "bad-op"
+    | _, _ => "bad-op"
+  | l => handleBase l
 
 end IpcHub.Drv.C14
